@@ -1068,7 +1068,7 @@ def build_univariate(meta):
             return np.asarray(p).astype(int) if isinstance(p, np.ndarray) else int(p)
         if style == "list" and isinstance(p, np.ndarray) and meta["family"] in ("Gamma", "InverseGamma", "Beta", "Cauchy"):
             return p.tolist()        # Normal / Uniform / Laplace do not coerce their parameters: their logpdf refuses python lists (TypeError)
-        if style == "f32" and isinstance(p, np.ndarray):
+        if style == "f32" and isinstance(p, np.ndarray) and meta["family"] != "Gamma":     # Gamma divides (scale = 1/rate): single precision there
             return p.astype(np.float32)
         return p
     ps = [restyle(p) for p in ps]
